@@ -1,0 +1,20 @@
+//go:build verif
+
+// Verification hooks (build tag "verif" only): accessors for the unexported config sort
+// functions used to order configuration objects before generation. No behaviour change;
+// absent from normal builds.
+
+package model
+
+import "istio.io/istio/pkg/config"
+
+// VerifC17SortConfigByCreationTime exposes sortConfigByCreationTime (sorts in place, returns the slice).
+func VerifC17SortConfigByCreationTime(configs []config.Config) []config.Config {
+	return sortConfigByCreationTime(configs)
+}
+
+// VerifC17SortConfigBySelectorAndCreationTime exposes sortConfigBySelectorAndCreationTime
+// (DestinationRule configs only; sorts in place, returns the slice).
+func VerifC17SortConfigBySelectorAndCreationTime(configs []config.Config) []config.Config {
+	return sortConfigBySelectorAndCreationTime(configs)
+}
